@@ -168,11 +168,25 @@ pub mod buffer {
         pub mod endorse {
             use crate::point::Point;
             /// C05.R3: corner test on quantised end points
-            pub fn is_rect(a: &Point, b: &Point) -> bool {
+            fn is_rect(a: &Point, b: &Point) -> bool {
                 a.cell() == b.cell()
             }
-            pub fn is_rounded_rect(a: &Point, b: &Point) -> bool {
-                is_rect(a, b)
+            fn is_rounded_rect(a: &Point, b: &Point) -> bool {
+                a.cell().0 == b.cell().0
+            }
+            pub fn endorse_rect(a: &Point, b: &Point) -> Option<(Point, Point)> {
+                if is_rect(a, b) {
+                    Some((*a, *b))
+                } else {
+                    None
+                }
+            }
+            pub fn endorse_rounded_rect(a: &Point, b: &Point) -> Option<(Point, Point)> {
+                if is_rounded_rect(a, b) {
+                    Some((*a, *b))
+                } else {
+                    None
+                }
             }
         }
     }
